@@ -7,11 +7,12 @@ try:
 except FileNotFoundError:
     pass
 props = [json.loads(l) for l in open("/verif/properties.jsonl")]
+CLAIMED = json.load(open("/verif/tools/claimed.json"))  # properties whose check is finished and reviewed
 checks, na = [], []
 for p in props:
     pid = p["id"]
     path = f"/verif/tools/props/{pid.lower()}.py"
-    if os.path.exists(path) and pid not in NOT_APPLICABLE:
+    if os.path.exists(path) and pid in CLAIMED and pid not in NOT_APPLICABLE:
         m = importlib.import_module(f"props.{pid.lower()}").META
         checks.append({
             "property_id": pid,
